@@ -297,8 +297,28 @@ func c12Variant(t *rapid.T, base *Call, regen func() (desc.V, bool)) *Call {
 		return &Call{V: &cp}
 	}
 	cp := *base.S
-	switch rapid.IntRange(0, 6).Draw(t, "variant") {
+	switch rapid.IntRange(0, 7).Draw(t, "variant") {
 	case 0:
+	case 7:
+		// the caller keeps ONE rule-map object, edits a rule in place and calls again
+		if len(cp.Unscoped) > 0 {
+			if base.S.RMSlot == "" {
+				base.S.RMSlot = "slot-" + shortType(base.typeKey())
+			}
+			cp.RMSlot = base.S.RMSlot
+			cp.Unscoped = map[string]string{}
+			edited := false
+			for _, k := range sortedKeys(base.S.Unscoped) {
+				cp.Unscoped[k] = base.S.Unscoped[k]
+				if !edited && len(cp.CallFns) == 0 {
+					cp.Unscoped[k] = rapid.SampledFrom([]string{"required|edited", "to=1~1|edited", "noeq=0|edited", "in=(zz)|edited"}).Draw(t, "editedRule")
+					edited = true
+				}
+			}
+			cp.pickEntry(rapid.IntRange(0, 7).Draw(t, "ventry7"))
+			cp.Twice = false
+			return &Call{S: &cp}
+		}
 	case 1:
 		cp.Unscoped, cp.PerType = nil, nil
 	case 2:
